@@ -19,6 +19,8 @@ CHECKS = {
  "C12": (E2, "Every byte string <=7 (thorough 9) over {a,b,split,CR} for Split/Line, every token string <=4 (thorough 5) over a 21-token header alphabet (including absurd and overflowing lengths) with three suffixes for the four header framings, every string <=5 (6) over the JSON punctuation alphabet for RawJSON, plus every truncation / single-byte substitution of valid header streams; each under <=1 cut, one-byte reads and both EOF placements; compared with three-valued reference decoders (must-yield / must-fail / unspecified) written from the package documentation. Runs in sub-processes under a fixed address-space limit; a dead worker is a violation carrying the announced input.", "reference decoders encode only what the documentation states (unspecified inputs are judged for no-panic / no-fabrication only)", "DESIGN.md §5 C12"),
  "C02": (E2, "Every record of the product of per-field variants (6 versions x 13 ids x 10 methods x 9 params x 6 extra fields = 42120 members, as object and as one-element array), all ordered pairs of 30 class representatives as batches, and every byte string <=4 (thorough 5) over an 11-character JSON alphabet, each for a plain and a push-enabled server, is fed to a real Server under the cooperative scheduler (so 'no output' is decided at a sound quiescent point), followed by a liveness probe; members with >=2 defects are run under every iteration order of the member parser's map. Output is compared with an independently written classifier.", "default schedule only (the property quantifies over inputs); classifier treats reply-shaped members with further defects as unspecified on push-enabled servers", "DESIGN.md §5 C02"),
  "C13": (E2, "Every method name of <=2 runes over 14 special runes (thorough: every single rune U+0000..U+10FFFF), 84 values of depth <=2 as Go values and as pre-encoded raw JSON with white space at every token boundary, ids of every JSON type, error objects with data: emitted through Client.Notify/Call/Batch, Server responses / error responses / Notify, and Response.MarshalJSON, captured on a raw channel and judged by an independent strict JSON tokenizer, a round trip through ParseRequests and every framing's Send. ParseRequests itself on every C02 input against the C02 classifier.", "encoding/json trusted for value comparison only (the validator is separate); default schedule", "DESIGN.md §5 C13"),
+ "C14": (E2, "Every error built from the user-facing constructors (*Error x 33 codes x 3 messages x 6 data values; Errorf, Code.Err, custom coders, coders wrapping other errors, *Error, context sentinels and plain errors under 7 wrapper shapes of depth <=2) is returned by a handler of a real Server and observed at Client.Call; unmarshalable results; ErrorCode(c.Err())==c for c in [-70000,70000] and both int32 ends (thorough: every int32); WithData on every receiver/data combination. ErrorCode is additionally compared with its documented definition written independently.", "default schedule; errors.As/Is trusted", "DESIGN.md §5 C14"),
+ "C17": (E2, "Every method name of length 1..4 (thorough 1..6) over {a,b,.,r,p,c,R,e-acute}, rpc.* names, rpc.serverInfo neighbours and one-edit neighbours of every registered name, called through a real Server for three assigners (Map on every boundary key; ServiceMap of depth 2 and 3 with empty, dotted and rpc service keys) and both DisableBuiltin settings; compared with a reference resolver written from the documentation; InboundRequest / ServerFromContext identities, Names() and rpc.serverInfo content.", "default schedule", "DESIGN.md §5 C17"),
 }
 ALL = [json.loads(l)["id"] for l in open(os.path.join(HERE, "properties.jsonl"))]
 PENDING = "check not built yet (work in progress in the order of DESIGN.md §10); nothing is claimed for it"
